@@ -25,6 +25,19 @@ def closure_contains(prog, c, pred, depth=0):
     for bb, t in c.calls():
         if pred(t):
             return True
+    # the closure body extracted into a free helper fn of the same module (`|pack| read_and_check_pack(be, pack, ..)`)
+    root = re.sub(r"(::\{closure#\d+\})+$", "", c.path)
+    mod = _module_of(root)
+    if depth < 3 and "::" in mod:
+        for bb, t in c.calls():
+            if "callee" not in t:
+                continue
+            h = callee(t)
+            H = prog.bodies.get(h)
+            if H is None or H.is_closure() or h == root or h.rsplit("::", 1)[0] != mod:
+                continue
+            if closure_contains(prog, H, pred, depth + 1):
+                return True
     if depth < 6:
         for sub in prog.closures_of(c, recursive=False):
             if closure_contains(prog, sub, pred, depth + 1):
